@@ -23,7 +23,12 @@ from dask_expr._expr import (
     no_default,
 )
 from dask_expr._reductions import Len
-from dask_expr._util import _BackendData, _convert_to_list, _tokenize_deterministic
+from dask_expr._util import (
+    _BackendData,
+    _convert_to_list,
+    _labels_to_list,
+    _tokenize_deterministic,
+)
 
 
 class IO(Expr):
@@ -78,7 +83,7 @@ class BlockwiseIO(Blockwise, IO):
             # Column projection
             parent_columns = parent.operand("columns")
             proposed_columns = determine_column_projection(self, parent, dependents)
-            proposed_columns = _convert_to_list(proposed_columns)
+            proposed_columns = _labels_to_list(proposed_columns)
             proposed_columns = [col for col in self.columns if col in proposed_columns]
             if set(proposed_columns) == set(self.columns):
                 # Already projected or nothing to do
